@@ -36,7 +36,7 @@ func transparent(t reflect.Type) bool {
 	case p == "", p == "golang.org/x/oauth2", p == "github.com/rs/cors", p == "golang.org/x/text/language":
 		return true
 	case p == "net/http":
-		return t.Name() == "Client" || t.Name() == "Header"
+		return t.Name() == "Header"
 	case strings.HasPrefix(p, "github.com/zitadel/oidc/v3/pkg/"):
 		return true
 	case p == "verif/internal/vclient":
@@ -90,7 +90,13 @@ func render(v reflect.Value, depth int, seen map[uintptr]bool) string {
 		if v.IsNil() {
 			return "nil"
 		}
+		// interfaces hold behaviour objects (key sets, transports, encoders, signers, storages) whose insides
+		// legitimately change with use: identity only
 		e := v.Elem()
+		switch e.Kind() {
+		case reflect.Pointer, reflect.Map, reflect.Chan, reflect.Func, reflect.UnsafePointer:
+			return fmt.Sprintf("(%s)@%x", e.Type().String(), e.Pointer())
+		}
 		return "(" + e.Type().String() + ")" + render(e, depth+1, seen)
 	case reflect.Slice:
 		if v.IsNil() {
